@@ -13,9 +13,9 @@ import (
 	"sync"
 	"time"
 
-	harcollector "lunar/engine/streams/processors/har-collector"
 	lunarMessages "lunar/engine/messages"
 	lunar_context "lunar/engine/streams/lunar-context"
+	harcollector "lunar/engine/streams/processors/har-collector"
 	public_types "lunar/engine/streams/public-types"
 	streamtypes "lunar/engine/streams/types"
 	context_manager "lunar/toolkit-core/context-manager"
